@@ -5,6 +5,9 @@ FLAVOURS = {
     'asan':     {'cc': 'gcc', 'cflags': SAN + ' -DNDEBUG'},
     'asan-dbg': {'cc': 'gcc', 'cflags': SAN},
     'plain':    {'cc': 'gcc', 'cflags': '-O2 -g -DNDEBUG'},
+    # a second compiler: behaviour that depends on unspecified evaluation order or other compiler latitude shows up as a difference from the model
+    'clang-asan': {'cc': 'clang', 'cflags': '-O1 -g -fno-omit-frame-pointer -fsanitize=address,undefined -fno-sanitize-recover=all -fno-sanitize=object-size -DNDEBUG'},
+    'clang-plain': {'cc': 'clang', 'cflags': '-O2 -g -DNDEBUG'},
     'schar':    {'cc': 'gcc', 'cflags': SAN + ' -DNDEBUG', 'lib_cflags': '-fsigned-char'},
     'uchar':    {'cc': 'gcc', 'cflags': SAN + ' -DNDEBUG', 'lib_cflags': '-funsigned-char'},
     'tsan':     {'cc': 'gcc', 'cflags': '-O1 -g -fsanitize=thread -DNDEBUG'},
@@ -17,6 +20,8 @@ FLAVOURS = {
                   'ldextra': '-Wl,--wrap=malloc,--wrap=free,--wrap=calloc,--wrap=realloc,--wrap=time,--wrap=clock_gettime,--wrap=gettimeofday,--wrap=getrandom,--wrap=getentropy,--wrap=rand,--wrap=random,--wrap=open,--wrap=fopen,--wrap=clock'},
     'fuzz':     {'cc': 'clang', 'cflags': '-O1 -g -fno-omit-frame-pointer -fsanitize=fuzzer-no-link,address,undefined -fno-sanitize-recover=all -fno-sanitize=object-size',
                  'ldflags': '-fsanitize=fuzzer,address,undefined'},
+    'tsan-wrap': {'cc': 'gcc', 'cflags': '-O1 -g -fsanitize=thread -DNDEBUG', 'extra_src': ['pv_wrap.c'],
+                  'ldextra': '-Wl,--wrap=malloc,--wrap=free,--wrap=calloc,--wrap=realloc,--wrap=time,--wrap=clock_gettime,--wrap=gettimeofday,--wrap=getrandom,--wrap=getentropy,--wrap=rand,--wrap=random,--wrap=open,--wrap=fopen,--wrap=clock'},
     # C16: no sanitizer (they change frame layout); eager binding so that the dynamic loader never dumps registers on the monitored stack
     'opt-O0':   {'cc': 'gcc', 'cflags': '-O0 -g -DNDEBUG', 'ldextra': '-Wl,-z,now'},
     'opt-O1':   {'cc': 'gcc', 'cflags': '-O1 -g -DNDEBUG', 'ldextra': '-Wl,-z,now'},
@@ -41,6 +46,7 @@ PROPS['C07'] = {
     'exhaustive_possible': True,
     'runs': [
         {'name': 'sweep-asan', 'flavour': 'asan', 'driver': 'drv_c07', 'timeout': 1800},
+        {'name': 'stripe-clang', 'flavour': 'clang-asan', 'driver': 'drv_c07', 'env': {'PV_SCALE': '10'}, 'shards': 6, 'timeout': 1800},
         {'name': 'selftest-dbg', 'flavour': 'asan-dbg', 'driver': 'drv_c07', 'env': {'PV_SCALE': '100'}, 'args': [], 'shards': 4,
          'tiers': ('thorough',)},
     ],
@@ -61,7 +67,8 @@ PROPS['C17'] = {
 PROPS['C03'] = {
     'level': 'exploration',
     'exhaustive_possible': True,
-    'runs': [{'name': 'asan', 'flavour': 'asan', 'driver': 'drv_c03'}],
+    'runs': [{'name': 'asan', 'flavour': 'asan', 'driver': 'drv_c03'},
+             {'name': 'clang', 'flavour': 'clang-asan', 'driver': 'drv_c03', 'env': {'PV_SCALE': '20'}, 'shards': 6}],
     'require': {'encode.calls': 400000, 'bits.seeds': 13531, 'purity.histories_agree': 1000, 'reserved_bit.decodes': 100, 'oracle.vectors_reproduced': 3000},
 }
 
@@ -86,7 +93,7 @@ PROPS['C19'] = {
         {'name': 'uchar', 'flavour': 'uchar', 'driver': 'drv_c19', 'args': ['--tag', 'unsigned-char'], 'shards': 8},
     ],
     'transcript_pairs': [('schar', 'uchar')],
-    'require': {'transcript.cases_compared': 10000, 'allwords.decoded': 40960, 'forms.ideographic_space': 1000, 'ops.crypt.spanish': 20, 'ops.crypt.hangul': 20},
+    'require': {'transcript.cases_compared': 10000, 'allwords.decoded': 40960, 'edges.tokens': 2 * 2 * 2048 * 16, 'forms.ideographic_space': 1000, 'ops.crypt.spanish': 20, 'ops.crypt.hangul': 20},
     'assumptions': ['char signedness is varied with -fsigned-char / -funsigned-char on x86-64 gcc; other ABI differences of ARM/PowerPC targets are not reproduced'],
 }
 
@@ -95,7 +102,7 @@ PROPS['C08'] = {
     'exhaustive_possible': True,
     'runs': [{'name': 'asan', 'flavour': 'asan', 'driver': 'drv_c08', 'timeout': 1800}],
     'require': {'words.swept': 2048 * 3 + 7 * 512, 'tokens.prefix.en.accepted': 2500, 'tokens.prefix.en.rejected': 5000,
-                'tokens.accent-terminated-prefix.es.accepted': 100, 'tokens.foreign-letter-inserted.fr.rejected': 1000, 'mixed.permitted.OK': 10000},
+                'tokens.accent-terminated-prefix.es.accepted': 100, 'tokens.foreign-letter-inserted.fr.rejected': 1000, 'mixed.permitted.OK': 10000, 'long.tokens.ERR_LANG': 1000, 'tokens.accent-block-edge.es.rejected': 1000},
 }
 
 # ---------------------------------------------------------------------------------------------------------------
@@ -125,6 +132,7 @@ MANIFEST_TEXT = {
 PROPS['C01'] = {
     'level': 'exploration',
     'runs': [{'name': 'asan', 'flavour': 'asan', 'driver': 'drv_c01'},
+             {'name': 'clang', 'flavour': 'clang-asan', 'driver': 'drv_c01', 'env': {'PV_SCALE': '15'}, 'shards': 6},
              {'name': 'asan-dbg', 'flavour': 'asan-dbg', 'driver': 'drv_c01', 'env': {'PV_SCALE': '10'}, 'shards': 4}],
     'require': {'auto.ok': 50000, 'auto.mult_lang': 100, 'ambiguous.constructed': 500, 'roundtrip.how.created': 5000, 'roundtrip.how.crypted': 5000, 'axes.cases': 3000},
 }
@@ -229,7 +237,7 @@ PROPS['C14'] = {
              {'name': 'fuzz-password', 'kind': 'fuzz', 'flavour': 'fuzz', 'driver': 'fuzz_api', 'mode': 1, 'runs_quick': 100000, 'runs_thorough': 3000000},
              {'name': 'fuzz-buffer', 'kind': 'fuzz', 'flavour': 'fuzz', 'driver': 'fuzz_api', 'mode': 2, 'runs_quick': 200000, 'runs_thorough': 8000000}],
     'require': {'inputs.on_readonly_page_before_guard': 10000, 'class.padded-to-buffer-boundary': 5000, 'class.raw-bytes': 1000, 'class.length-edit': 1000,
-                'calls.load.ERR_FORMAT': 1000, 'calls.load.ERR_MEMORY': 1000, 'fuzz.execs.fuzz-phrase': 50000, 'fuzz.execs.fuzz-password': 50000, 'fuzz.execs.fuzz-buffer': 50000, 'calls.crypt.len>=4096': 20, 'calls.decode.ERR_MEMORY.len<size-2': 100},
+                'calls.load.ERR_FORMAT': 1000, 'calls.load.ERR_MEMORY': 1000, 'flood.phrases': 3000, 'flood.nfkd_length.size-1': 100, 'flood.decoded_ok': 500, 'fuzz.execs.fuzz-phrase': 50000, 'fuzz.execs.fuzz-password': 50000, 'fuzz.execs.fuzz-buffer': 50000, 'calls.crypt.len>=4096': 20, 'calls.decode.ERR_MEMORY.len<size-2': 100},
 }
 MANIFEST_TEXT['C14'] = {'technique': 'runtime monitoring: ASan+UBSan (NDEBUG and assertion-enabled builds) on grammar/boundary/raw inputs with exact-size and read-only-before-guard-page buffers, per-case watchdog, allocator ledger; coverage-guided libFuzzer (clang) on three entry points',
     'text': 'Arbitrary strings (all grammar classes, lengths around POLYSEED_STR_SIZE, 2x, 64 KiB, invalid UTF-8, raw bytes) are fed as phrases to both decoders and as passwords to crypt, and mutated/random buffers to load, on exact-size heap blocks and on a read-only page ending at an inaccessible guard page; any sanitizer report, signal, assertion abort or watchdog expiry is a violation, as is a status outside the documented set, a modified input, a block left allocated by a failed call or a non-canonical seed. libFuzzer explores the same three entry points coverage-guided, seeded with grammar output.',
@@ -274,9 +282,9 @@ MANIFEST_TEXT['C13'] = {'technique': 'runtime monitoring: lock-step execution of
 
 PROPS['C20'] = {
     'level': 'exploration',
-    'runs': [{'name': 'tsan', 'flavour': 'tsan', 'driver': 'drv_c20', 'shards': 6, 'log_scan': 'tsan', 'timeout': 1800, 'timeout_thorough': 10800}],
+    'runs': [{'name': 'tsan', 'flavour': 'tsan-wrap', 'driver': 'drv_c20', 'shards': 6, 'log_scan': 'tsan', 'timeout': 1800, 'timeout_thorough': 10800}],
     'require': {'threads.digest_equal_to_solo': 60, 'overlap.total': 200000, 'overlap.crypt+decode': 50, 'overlap.encode+encode': 50, 'overlap.create+free': 50, 'overlap.decode+decode': 50,
-                'rounds.8_threads': 3, 'rounds.16_threads': 3},
+                'rounds.8_threads': 3, 'rounds.16_threads': 3, 'rounds.table.all-entries-injected': 2, 'rounds.table.time-NULL(libc-clock)': 2, 'rounds.table.time+alloc+free-NULL(libc)': 2},
 }
 MANIFEST_TEXT['C20'] = {'technique': 'runtime monitoring: ThreadSanitizer build (library + harness) under multi-threaded scripted workloads with yields injected at the dependency callbacks; serial-vs-concurrent transcript equality',
     'text': 'After one injection and one feature configuration, 8 and 16 threads execute deterministic scripts of every seed operation on private seeds (all languages), with random sched_yield/spins inside the dependency callbacks (the library\'s own suspension points) and several repetitions with different yield seeds. Any ThreadSanitizer report with a library frame is a violation (deduplicated by entry-point pair); each thread\'s transcript digest must equal that of the same script executed alone. A logical clock (relaxed atomics, so that it adds no synchronisation) measures how many call pairs of different threads really overlapped, per operation pair; a run with too few is inconclusive.',
